@@ -555,7 +555,7 @@ fn c05_big(c: &mut Case) -> Result<(), String> {
     type K = Kmer20;
     let k = 20;
     let stranded = c.rng.chance(1, 2);
-    let genome = crate::gen::gen_genome(&c.rng, 400_000 + c.rng.below(200_000), 100, 80);
+    let genome = crate::gen::gen_genome(&c.rng, if c.tier == Tier::Thorough { 400_000 + c.rng.below(200_000) } else { 60_000 + c.rng.below(40_000) }, 100, 80);
     let mut reads = Vec::new();
     let mut pos = 0;
     while pos + 50 < genome.len() {
@@ -616,8 +616,9 @@ pub fn run_c05(ctx: &Ctx) {
         with_graph_k!(fc.kidx, K => c05_case::<K>(c, &fc, &targets))
     });
     ctx.set_case_timeout(900);
-    if thorough && !ctx.is_miri() {
-        ctx.run_group_t("big", ctx.n(1, 4), false, 4, |c| c05_big(c));
+    if !ctx.is_miri() && ctx.lane != "asan" {
+        // quick: ~7*10^5 windows over > 65 536 distinct k-mers; thorough: ~5*10^6
+        ctx.run_group_t("big", ctx.n(2, 4), false, 4, |c| c05_big(c));
     }
     if !ctx.is_miri() {
         ctx.run_group("saturation", ctx.n(6, 24), false, |c| c05_saturation(c));
